@@ -259,12 +259,13 @@ def run_gen(spec, res):
     xmlschema = env.activate_repo()
     rec = Recorder()
     schemas = {}
-    for fam in D.FAMILIES:
+    ALL = dict(D.FAMILIES, plain=D.EXTRA_FAMILIES['plain'])
+    for fam in ALL:
         for v, cls in (('1.0', xmlschema.XMLSchema10), ('1.1', xmlschema.XMLSchema11)):
-            schemas[fam, v] = cls(D.FAMILIES[fam])
+            schemas[fam, v] = cls(ALL[fam])
     rng = env.rng_for(PROPERTY, spec['tier'], spec['seed'], spec['gshard'])
     for d in range(spec['docs']):
-        fam = rng.choice(('shop', 'tree', 'ctx', 'ctx'))
+        fam = rng.choice(('shop', 'tree', 'ctx', 'ctx', 'plain'))
         doc = D.GENERATORS[fam](rng)
         version = rng.choice(('1.0', '1.1'))
         schema = schemas[fam, version]
@@ -273,12 +274,16 @@ def run_gen(spec, res):
         full_prefixes = dict(prefixes)
         nsmap = {p: ns for ns, p in prefixes.items()}
         nsmap['xsi'] = D.XSI
+        if fam == 'plain':
+            nsmap = {}      # nothing is declared anywhere: the caller's map is empty
         wild = [p for p, n in doc.walk() if n.meta.get('wild')] + \
             [p + (i,) for p, n in doc.walk() if n.meta.get('xsi_type') for i in range(len(n.children))]
         run_doc(res, xmlschema, rec, schema, fam, version, text, full_prefixes, nsmap, wild, rng, spec['tier'])
         # the same document in a "version 2" namespace: same paths, same prefixes, other URIs. Results must not
         # depend on what was looked up before in this process (selectors / lookups are cached process-wide).
         ns = D.FAMILY_NS[fam]
+        if not ns:
+            continue
         key2 = (fam, version, 'v2')
         if key2 not in schemas:
             schemas[key2] = type(schema)(D.FAMILIES[fam].replace(ns, ns + ':v2'))
@@ -378,7 +383,7 @@ def replay(case):
         rec = Recorder()
         cls = xmlschema.XMLSchema10 if case['version'] == '1.0' else xmlschema.XMLSchema11
         fam0 = case['family'].split(':')[0]
-        xsd = D.FAMILIES[fam0]
+        xsd = dict(D.FAMILIES, **D.EXTRA_FAMILIES)[fam0]
         if case['family'].endswith(':v2'):
             xsd = xsd.replace(D.FAMILY_NS[fam0], D.FAMILY_NS[fam0] + ':v2')
         schema = cls(xsd)
